@@ -95,7 +95,7 @@ func replayOther(res *Result, rf replayFile, text string) {
 				return
 			}
 		}
-	case "meaning_differs", "layout_changes_output":
+	case "meaning_differs", "layout_changes_output", "irrelevant_binding_changes_output":
 		// decided by TLC on the recorded SQL; reproduced when the code still emits that SQL
 		var sql string
 		var cerr error
